@@ -4,8 +4,10 @@
   `mergeC o a b` is the children map of `A.Merge(B, opts)` (`a`, `b` the children maps of A, B;
   `o` the list strategy selected by the options).  Documents are WF nodes: every container's
   keys strictly sorted (= a Go map).  "Merging never modifies A or B" has no counterpart in the
-  value model (a function cannot modify its arguments); it is carried by the harness's
-  before/after snapshots.
+  value model (a function cannot modify its arguments); it is stated and proved on the
+  heap-level model (section "Pointer level" below: `heap_merge_prefix`, `heap_merge_abs`,
+  `heap_merge_sharing`, `heap_merge_spine_path`) and tied to the code by the harness's
+  sharing-map correspondence and pointer-level before/after snapshots (harness/heap_share.go).
 -/
 import YtkProofs.Merge
 import YtkProofs.Heap
